@@ -69,8 +69,28 @@ def gen_super(rng):
     if rng.random() < 0.2 and len(entries) > 1:
         entries.append(entries[int(rng.integers(0, len(entries)))])  # same entry in two places
     nobs = int(rng.integers(1, 4))
+    if rng.random() < 0.25 and maxlen == 1:
+        # two magnets of the same class next to each other in the list (TriangularMeshes: same number of faces),
+        # observers INSIDE one of them and outside the other: the inside term belongs to one summand only
+        cls = str(rng.choice(["TriangularMesh", "TriangularMesh", "Tetrahedron", "Cuboid", "Cylinder", "CylinderSegment", "Sphere"]))
+        a, b = objs.rand_source(rng, cls, path_len=1), objs.rand_source(rng, cls, path_len=1)
+        if cls == "TriangularMesh":
+            kindm = str(rng.choice(["box", "tetra"]))
+            for x in (a, b):
+                Vm, Fm = objs.rand_mesh(rng, kindm)
+                x["vertices"], x["faces"] = np.asarray(Vm).tolist(), np.asarray(Fm).tolist()
+        b["position"] = (np.array(b["position"]) + 6.0 * np.array(objs.rand_vec(rng)) / np.linalg.norm(objs.rand_vec(rng))).tolist()
+        k = int(rng.integers(0, len(entries) + 1))
+        entries[k:k] = [a, b]
     if rng.random() < 0.5:
         obs = {"positions": (rng.normal(size=(nobs, 3)) * 3).tolist()}
+        mags = [e for e in entries if e["cls"] in objs.MAGNETS and len(e["position"]) == 1]
+        if mags and maxlen == 1:
+            from vfw.oracles import geometry as G
+            from vfw.props.c06 import interior_point
+
+            m = mags[int(rng.integers(0, len(mags)))]
+            obs["positions"][0] = G.to_global(m, interior_point(m))[0].tolist()
     else:
         pix = objs.rand_sensor(rng)["pixel"]
         obs = {"sensors": [objs.rand_sensor(rng, path_len=pick_len(rng, maxlen), pixel=pix) for _ in range(nobs)]}
